@@ -41,6 +41,15 @@ class Backend:
             s.update(RC2_SUMMARIES)
         else:
             s[f"{self.cls}.get_all_xi_i"] = summary_get_all_xi_i
+        ex = getattr(self, "_ex", None)
+        if ex is not None:
+            # pure Boolean helpers of the operator's module are used through their quantifier reading
+            mod = self.cls.rsplit(".", 1)[0]
+            for name in ("any_subset_of_all",):
+                q = f"{mod}.{name}"
+                if q in ex.prog.functions:
+                    from ..harness import bool_helper_summary
+                    s[q] = bool_helper_summary(ex, q)
         return s
 
     def hooks(self):
@@ -64,8 +73,9 @@ class Backend:
 
     qslots = None
 
-    def discover_query_slots(self, ex):
+    def discover_query_slots(self, ex, _bind=True):
         """Where does `_inference` store the CNFs of the query's verification / falsification?"""
+        self._ex = ex
         if self.name != "rc2" or self.qslots is not None:
             return self.qslots
         site, paths = entry_paths(None, ex, self)
